@@ -406,3 +406,68 @@ pub fn run_tls(env: &mut Env) -> Outcome {
     if plan.harmful { ctx.probe("fault_family_survived"); }
     Outcome::Pass
 }
+
+// ------------------------------------------------------------------------------------------------ a whole session
+
+/// RdpClient::write / try_write on an active session over TLS, one fault under the TLS layer: every call that returns Ok
+/// must have put its input PDU in front of the server (the lenient try_write may drop what the state of the *session*
+/// forbids, not what the transport lost)
+pub fn run_session(env: &mut Env) -> Outcome {
+    use crate::refsrv::strict::{ClientMsg, DataPdu, SharePdu};
+    use rdp::core::event::{KeyboardEvent, PointerButton, PointerEvent, RdpEvent};
+    let ctxrc = env.ctx.clone();
+    let (mut s, _cfg, _params) = match crate::scen::session::establish(env, "c14", true) {
+        Ok(x) => x,
+        Err(o) => return o,
+    };
+    s.world.pump();
+    let base_hist = s.world.server.borrow().history.len();
+    let n = 3 + ctxrc.borrow_mut().choose("n_events", 6) as usize;
+    let fault_at_call = ctxrc.borrow_mut().choose("fault_at_call", n as u64) as usize;
+    let fault_kind = ctxrc.borrow_mut().choose("fault_kind", 3);
+    let mut oks = 0usize;
+    let mut errs = 0usize;
+    let mut log: Vec<String> = Vec::new();
+    let mut last_failed: Option<usize> = None;
+    for i in 0..n {
+        if i == fault_at_call {
+            let at = s.world.wire.borrow().c2s_all.len() + ctxrc.borrow_mut().choose("fault_offset", 40) as usize;
+            let mut c = s.world.cfg.borrow_mut();
+            match fault_kind {
+                0 => { c.write_fail_at = Some(at); c.write_fail_transient = true; c.write_fail_kind = std::io::ErrorKind::Other; }
+                1 => { c.write_fail_at = Some(at); c.write_fail_transient = true; c.write_fail_kind = std::io::ErrorKind::WouldBlock; }
+                _ => { c.zero_write = 16; }
+            }
+        }
+        // after a failure: the same event again (a retry) in one case out of three, otherwise another one
+        let retry = last_failed.is_some() && ctxrc.borrow_mut().chance("retry_same_event", 1, 3);
+        let k = if retry { last_failed.unwrap() } else { i };
+        let ev = if k % 2 == 0 { RdpEvent::Pointer(PointerEvent { x: 10 + k as u16, y: 20, button: PointerButton::None, down: false }) } else { RdpEvent::Key(KeyboardEvent { code: 0x10 + k as u16, down: true }) };
+        let lenient = ctxrc.borrow_mut().chance("try_write", 2, 3);
+        let client = s.client.as_mut().unwrap();
+        let res = match guard(|| if lenient { client.try_write(ev) } else { client.write(ev) }) { Ok(r) => r, Err(p) => return panic_outcome(&p) };
+        { let mut c = s.world.cfg.borrow_mut(); c.zero_write = 0; }
+        log.push(format!("{}#{}->{}", if lenient { "try_write" } else { "write" }, k, match &res { Ok(_) => "Ok".to_string(), Err(e) => err_kind(e) }));
+        match res {
+            Ok(_) => { oks += 1; last_failed = None; }
+            Err(_) => { errs += 1; if last_failed.is_none() { last_failed = Some(k); } }
+        }
+    }
+    { let mut c = s.world.cfg.borrow_mut(); c.write_fail_at = None; c.zero_write = 0; }
+    s.world.pump();
+    s.world.pump();
+    let received = s.world.server.borrow().history[base_hist..].iter().filter(|(_, _, m)| matches!(m, ClientMsg::Share { pdu: SharePdu::Data { pdu: DataPdu::Input { .. }, .. }, .. })).count();
+    ctxrc.borrow_mut().ev("drv", format!("calls [{}]; {} Ok, {} Err, server decoded {} input PDUs", log.join(", "), oks, errs, received));
+    if received < oks {
+        return viol("c14/acknowledged-but-lost", "session write/try_write", format!("{} calls returned Ok but the server decoded only {} input PDUs after a fault under the TLS layer (calls: {})", oks, received, log.join(", ")));
+    }
+    if received > oks + if errs > 0 { 1 } else { 0 } {
+        return viol("c14/misframed", "session write/try_write", format!("the server decoded {} input PDUs for {} acknowledged calls (calls: {})", received, oks, log.join(", ")));
+    }
+    let mut ctx = ctxrc.borrow_mut();
+    ctx.key_add(fault_kind);
+    ctx.key_add(errs as u64);
+    if errs > 0 { ctx.probe("error_reported"); }
+    ctx.nontrivial = true;
+    Outcome::Pass
+}
